@@ -223,6 +223,8 @@ def _check_python_bodied_method(ctx, repo, c, meth, op, order, entry):
 
 
 @rule("C04.registry-names", props=["C04", "C06", "C03", "C05", "C07"], min_instances=60, mutants=[
+    ("subtracting from the multivector that stores no blade returns the other operand", ("multivector", "    def sub(self, other):\n        return self.algebra.sub(self, other)", "    def sub(self, other):\n        if isinstance(other, MultiVector) and other.algebra is self.algebra and not self._keys:\n            return other\n        return self.algebra.sub(self, other)")),
+    ("the sandwich is stripped to the grades of its second operand", ("multivector", "        return self.algebra.sw(self, other)", "        res = self.algebra.sw(self, other)\n        if isinstance(other, MultiVector) and isinstance(res, MultiVector) and res.grades != other.grades:\n            res = res.grade(other.grades)\n        return res")),
     ("single-grade shortcut of reverse() forgets the period 4", ("multivector", "    def reverse(self):\n        \"\"\" Reversion \"\"\"\n        return self.algebra.reverse(self)", "    def reverse(self):\n        \"\"\" Reversion \"\"\"\n        if len(self.grades) == 1:\n            return -self if self.grades[0] in (2, 3) else self\n        return self.algebra.reverse(self)")),
     ("~ bound to conjugate", ("multivector", "    def __invert__(self):\n        \"\"\" Reversion \"\"\"\n        return self.algebra.reverse(self)", "    def __invert__(self):\n        \"\"\" Reversion \"\"\"\n        return self.algebra.conjugate(self)")),
     ("lc method calls rc", ("multivector", "    def lc(self, other):\n        return self.algebra.lc(self, other)", "    def lc(self, other):\n        return self.algebra.rc(self, other)")),
